@@ -74,6 +74,11 @@ CLAIMED = {
    text="TLC enumerates, for base values of Nest, IncTop, Prims, Leaf, DefContainers, CK and DefOuter, every document obtained by removing any subset of record fields at any depth (inside a two-element array, a two-entry map, a union member, optional and required nested records, behind one and two includes), and checks that the operational accounting reports exactly the declarative set with a balanced scope stack. Each document is rendered independently of the library in five JSON variants (key orders, whitespace, unknown primitive/object/array fields first and last), as plain Go data for the untyped reader and as ROR2 in three flavours; the real reader must return a MissingRequiredFieldsError listing exactly the specified paths (none when complete) and a value carrying every field that was present.",
    note="paths use the JSON reader's format; query-reader paths are compared without the parameter name; defaults are not demanded in partially filled values; the lenient client is exercised under C02",
    design="5/C06"),
+ "C07": dict(
+   technique="TLA+ spec PathSpec.tla: declarative exclusion (a directive matches a prefix of the scope, * for array items and map keys) vs the operational trie walk, compared by TLC on every (directive set, scope) of the bound; Strip / Carries / MissingUnderExclusion define what encoders emit and decoders reject; all cases exported and replayed on the real NewPathSpec, writers and readers",
+   text="TLC checks that the trie walk decides exactly the declarative predicate for every set of <= 2 directives of depth <= 3 over {f, g, *} and every scope of depth <= 4 (the construction as it was is kept as OperMatchesRaw and refuted by TLC: prefix directives). Every pair is replayed on NewPathSpec(...).Matches. For documents of Ent and Nest (every subset of fields removed) under 19 exclusion specs, the real compact / pretty JSON and ROR2 writers configured with the spec must emit exactly Strip(value), and the JSON, ROR2 and untyped readers configured with it must raise ExcludedFieldError iff the document carries an excluded value, otherwise report exactly the non-excluded missing required fields; the same holds with the document wrapped 1 and 2 levels deep and the matching leading-scope offset.",
+   note="no meaning is assigned to Matches on scopes containing $set / $delete; the wire-level clauses through generated client and server are exercised with C02's harness",
+   design="5/C07"),
 }
 
 NOT_YET = {}
